@@ -97,7 +97,9 @@ func ResolveRelativeFinalSource(a, b FinalSource) (FinalSource, error) {
 	case LocalSource:
 		aRaw := a.relPath
 		new := path.Join(aRaw, bRaw)
-		if !looksLikeLocalSource(new) {
+		if new == "." || new == ".." {
+			new += "/" // the canonical forms are "./" and "../"
+		} else if !looksLikeLocalSource(new) {
 			new = "./" + new // preserve LocalSource's prefix invariant
 		}
 		return LocalSource{relPath: new}, nil
